@@ -1148,3 +1148,69 @@ func c03UDPSessionTable(c *Ctx) {
 		c.Unres(ob, "accesses of the UDP session table", fmt.Sprintf("found %d, expected >= 4", n))
 	}
 }
+
+// ---------------------------------------------------------------- C07.O18
+
+// c07MethodIsAToken: a request method is any token (RFC 9110; net/http takes
+// PROPFIND, MKCOL, ... and reports the method as it was sent).  A table of
+// known methods refuses well-formed requests, and folding the case changes
+// what is delivered.
+func c07MethodIsAToken(c *Ctx) {
+	const ob = "C07.O18"
+	parse := c.Fn(ob, "(*nbhttp.Parser).Parse")
+	if parse == nil {
+		return
+	}
+	fi := c.P.Info(parse)
+	// (a) the method is reported as sent
+	bad := "no OnMethod call in Parse"
+	pos := c.FnPos(parse)
+	for _, cs := range c.P.CallsNamed(parse, "invoke:nbhttp.Processor.OnMethod") {
+		pos = c.Pos(cs.In)
+		bad = ""
+		arg := cs.Common.Args[len(cs.Common.Args)-1]
+		v := ir.Resolve(arg)
+		if cv, ok := v.(*ssa.Convert); ok {
+			v = ir.Resolve(cv.X)
+		}
+		if _, ok := v.(*ssa.Slice); !ok {
+			bad = "the method handed to OnMethod at " + c.Pos(cs.In) + " is not the bytes of the request line (" + c.P.Desc(arg) + "): net/http reports the method as it was sent ('get' stays 'get'), so the delivered method differs"
+		}
+	}
+	c.Cond(bad == "", ob, fnKey(c.P, parse, "the method is reported as sent"), pos, "OnMethod(string(data[start:i]))", bad)
+	// (b) the bytes of a method are token bytes, and nothing else decides
+	consts := c.stateConsts()
+	cases := c.stateCases(parse)
+	for _, st := range []string{"stateMethodBefore", "stateMethod"} {
+		key := fnKey(c.P, parse, st+" accepts token bytes")
+		entry := cases[consts[st]]
+		if entry == nil {
+			c.Unres(ob, key, "case not found")
+			continue
+		}
+		paths, complete := c.casePaths(fi, entry, 2000)
+		if !complete {
+			c.Unres(ob, key, "path enumeration incomplete")
+			continue
+		}
+		callees := map[string]bool{}
+		for _, p := range paths {
+			for _, ft := range p.facts {
+				if call, ok := ir.Resolve(ft.Cond).(*ssa.Call); ok {
+					callees[c.P.CalleeName(&call.Call)] = true
+				}
+			}
+			for _, in := range p.instrs {
+				if cs, ok := ir.AsCall(in); ok && cs.Kind == "call" {
+					if n := c.P.CalleeName(cs.Common); strings.HasPrefix(n, "nbhttp.is") {
+						callees[n] = true
+					}
+				}
+			}
+		}
+		names := sortedKeys(callees)
+		ok := len(names) == 1 && names[0] == "nbhttp.isToken"
+		c.Cond(ok, ob, key, c.Pos(entry.Instrs[0]), "decided by isToken alone",
+			fmt.Sprintf("%s decides by %v instead of the token class alone: a method outside the built-in table (PROPFIND, MKCOL, REPORT, ...) or with a digit or '-' in it is refused with 'invalid HTTP method' although the request is well-formed (net/http accepts any token)", st, names))
+	}
+}
